@@ -665,8 +665,8 @@ func vC13PipeHistory(r *rand.Rand) map[string]any {
 		k = "pipe-shifted-instants"
 	}
 	out := map[string]any{
-		"k": k,
-		"coq": fmt.Sprintf("CasePipe (%d) (%d) (%d) %v %v (%d) (%d) %s [%s] %s", rawSize, int64(rawInit), int64(rawMax), off, exact, int64(init), int64(max), tab.coq(), strings.Join(steps, ";"), final),
+		"k":          k,
+		"coq":        fmt.Sprintf("CasePipe (%d) (%d) (%d) %v %v (%d) (%d) %s [%s] %s", rawSize, int64(rawInit), int64(rawMax), off, exact, int64(init), int64(max), tab.coq(), strings.Join(steps, ";"), final),
 		"nontrivial": cachedHits > 0 && downstreamCalls > 0,
 		"desc": map[string]any{"failure_cache_size": rawSize, "min_ttl": rawInit.String(), "max_ttl": rawMax.String(), "effective": init.String() + ".." + max.String(),
 			"rfc9520_off": off, "clock": map[bool]string{true: "stored instants shifted, time.Now", false: "scripted"}[shiftMode],
@@ -826,8 +826,8 @@ wait:
 		k = "probe-cohort-ecs"
 	}
 	return map[string]any{
-		"k": k,
-		"coq": fmt.Sprintf("CaseProbe %s %s %d [%s] [%s] %d %d", tab.coq(), zone.coq(), qclass, strings.Join(ncoq, ";"), strings.Join(keys, ";"), total, cached),
+		"k":          k,
+		"coq":        fmt.Sprintf("CaseProbe %s %s %d [%s] [%s] %d %d", tab.coq(), zone.coq(), qclass, strings.Join(ncoq, ";"), strings.Join(keys, ";"), total, cached),
 		"nontrivial": true,
 		"desc":       map[string]any{"zone": zone.pres(), "cohort": n, "ecs_audiences": scoped, "downstream_calls_while_probe_in_flight": total, "answered_from_failure_cache": cached, "retry_keys": keys},
 	}
@@ -905,8 +905,8 @@ func vC13ElectCase(r *rand.Rand) map[string]any {
 		}
 	}
 	return map[string]any{
-		"k": map[bool]string{true: "elect-first-probe-local", false: "elect-first-probe-shared"}[firstLocal],
-		"coq": fmt.Sprintf("CaseElect %d %v %d %d %d %d", n, firstLocal, maxInFlight.Load(), calls.Load(), served, shed),
+		"k":          map[bool]string{true: "elect-first-probe-local", false: "elect-first-probe-shared"}[firstLocal],
+		"coq":        fmt.Sprintf("CaseElect %d %v %d %d %d %d", n, firstLocal, maxInFlight.Load(), calls.Load(), served, shed),
 		"nontrivial": true,
 		"desc":       map[string]any{"zone": zone.pres(), "requests": n, "first_probe_request_local": firstLocal, "max_probes_in_flight": maxInFlight.Load(), "probes_sent": calls.Load(), "served_from_failure_cache": served, "shed_by_probe_limit": shed},
 	}
@@ -1033,8 +1033,8 @@ func vC13WireGateCase(t *testing.T, r *rand.Rand) map[string]any {
 		edeC = fmt.Sprintf("(Some %d%%N)", ede)
 	}
 	return map[string]any{
-		"k": "wire-gate",
-		"coq": fmt.Sprintf("CaseWireGate %v %v %v %s %s %s %v %d %s", cd, kindQ, dnssecOff, vC13LabelsOf(name).coq(), idxRung, idxQuery, byWire, rc, edeC),
+		"k":          "wire-gate",
+		"coq":        fmt.Sprintf("CaseWireGate %v %v %v %s %s %s %v %d %s", cd, kindQ, dnssecOff, vC13LabelsOf(name).coq(), idxRung, idxQuery, byWire, rc, edeC),
 		"nontrivial": len(how) > 0,
 		"desc":       map[string]any{"name": name, "cd": cd, "failure_kind_question": kindQ, "dnssec_off": dnssecOff, "denial_index_changes": how, "index_at_rung": idxRung, "index_at_query": idxQuery, "answered_by_byte_path": byWire, "rcode": rc, "ede": ede},
 	}
@@ -1135,8 +1135,8 @@ func vC13TimeoutCase(r *rand.Rand) map[string]any {
 		last = 1
 	}
 	return map[string]any{
-		"k": map[bool]string{true: "abandoned-leader-local", false: "abandoned-leader-shared"}[leaderLocal],
-		"coq": fmt.Sprintf("CaseTimeout %d %d %v %d %d %d %d %d", n, late, leaderLocal, callsBlocked, shedFirst, shedLate, calls.Load(), last),
+		"k":          map[bool]string{true: "abandoned-leader-local", false: "abandoned-leader-shared"}[leaderLocal],
+		"coq":        fmt.Sprintf("CaseTimeout %d %d %v %d %d %d %d %d", n, late, leaderLocal, callsBlocked, shedFirst, shedLate, calls.Load(), last),
 		"nontrivial": true,
 		"desc": map[string]any{"zone": zone.pres(), "requests": n, "late_requests": late, "leader_fails_request_locally": leaderLocal,
 			"probes_sent_while_leader_blocked": callsBlocked, "followers_shed": shedFirst, "late_requests_shed": shedLate,
@@ -1322,7 +1322,78 @@ func vC13CohortCase(t *testing.T, r *rand.Rand) map[string]any {
 	if off {
 		kk = "cohort-rfc9520-off"
 	}
-	return vC13CohortRun(t, kk, cfg, rawSize, rawInit, rawMax, off, pre, groups)
+	// the next clients: the cohort's questions again, siblings below the zones it touched, parents
+	var post []*vC13Member
+	for i, np := 0, r.Intn(3); i < np; i++ {
+		k := keys[r.Intn(len(keys))]
+		switch r.Intn(3) {
+		case 0:
+			if len(k.name) > 0 {
+				k.name = append(vC13Name{vC13RandLabel(r, false)}, k.name[1:]...) // a sibling
+			}
+		case 1:
+			if len(k.name) > 0 {
+				k.name = k.name[1:]
+			}
+		}
+		post = append(post, mk(k, true))
+	}
+	// Directed, 1 case in 2: a zone flaps while requests for names below it are in flight.  Two
+	// leaders below one zone Z are parked; one ends in a shared failure and files a zone failure
+	// for Z (all of Z's servers failed for it), the other ends in a useful answer — in either
+	// order; then the next clients ask for a third name below Z and for the two again.  A useful
+	// answer resets what was filed before it (however long its own request has been under way), a
+	// failure filed after it stands.
+	if r.Intn(2) == 0 && len(base.name) > 0 {
+		cut := 1 + r.Intn(len(base.name))
+		zone := base.name[cut:]
+		below := func() vC13Name {
+			n := vC13Name{vC13RandLabel(r, false)}
+			if r.Intn(3) == 0 {
+				n = append(vC13Name{vC13RandLabel(r, false)}, n...)
+			}
+			return append(n, zone...)
+		}
+		kf, ku, kn := base, base, base
+		kf.name, ku.name, kn.name = below(), below(), below()
+		kf.scope, ku.scope, kn.scope = netip.Prefix{}, netip.Prefix{}, netip.Prefix{}
+		if r.Intn(4) == 0 {
+			ku.name, ku.qtype = kf.name, kf.qtype^(dns.TypeA^dns.TypeAAAA) // the same name, the other type
+		}
+		if ident(kf) != ident(ku) {
+			fail := &vC13Group{leader: &vC13Member{key: kf, edns: r.Intn(4) != 0, d: vC13Down{kind: 0, rcode: []int{dns.RcodeServerFailure, dns.RcodeRefused}[r.Intn(2)], zoneAct: true, zone: g.caseMix(zone), zoneClass: kf.qclass}}}
+			usefulD := vC13Down{kind: 1, rcode: dns.RcodeNameError}
+			if ku.qtype == dns.TypeA && r.Intn(2) == 0 {
+				usefulD.rcode = dns.RcodeSuccess
+			}
+			if r.Intn(3) == 0 { // the resolver clears the zone's failure state on the way, as it does after an answer
+				usefulD.zoneAct, usefulD.zone, usefulD.zoneClass = true, g.caseMix(zone), ku.qclass
+			}
+			useful := &vC13Group{leader: &vC13Member{key: ku, edns: r.Intn(4) != 0, d: usefulD}}
+			for _, gr := range []*vC13Group{fail, useful} {
+				for i, nf := 0, r.Intn(3); i < nf; i++ {
+					fk := gr.leader.key
+					if i%2 == 1 {
+						fk.name = upper(fk.name)
+					}
+					gr.followers = append(gr.followers, mk(fk, true))
+				}
+			}
+			groups = []*vC13Group{fail, useful}
+			if r.Intn(3) == 0 {
+				groups = []*vC13Group{useful, fail}
+			}
+			post = []*vC13Member{mk(kn, true), mk(kf, true), mk(ku, true)} // the third name first: nothing but the zone's state decides it
+			if r.Intn(2) == 0 {
+				post[1], post[2] = post[2], post[1]
+			}
+			post = post[:1+r.Intn(3)]
+			if !off {
+				kk = "cohort-zone-flap"
+			}
+		}
+	}
+	return vC13CohortRun(t, kk, cfg, rawSize, rawInit, rawMax, off, pre, groups, post)
 }
 
 type vC13Group struct {
@@ -1330,7 +1401,7 @@ type vC13Group struct {
 	followers []*vC13Member
 }
 
-func vC13CohortRun(t *testing.T, kk string, cfg *config.Config, rawSize int, rawInit, rawMax time.Duration, off bool, prelude []*vC13Member, groups []*vC13Group) map[string]any {
+func vC13CohortRun(t *testing.T, kk string, cfg *config.Config, rawSize int, rawInit, rawMax time.Duration, off bool, prelude []*vC13Member, groups []*vC13Group, postlude []*vC13Member) map[string]any {
 	var out map[string]any
 	synctest.Test(t, func(t *testing.T) {
 		c := New(cfg)
@@ -1455,10 +1526,16 @@ func vC13CohortRun(t *testing.T, kk string, cfg *config.Config, rawSize int, raw
 			}
 			gs = append(gs, fmt.Sprintf("(%s,[%s])", lc, strings.Join(fs, ";")))
 		}
+		// the next clients, one after the other, once every request of the cohort has returned
+		var post []string
+		for _, m := range postlude {
+			m.rcode, m.ede, m.calls, m.scope = vC13Serve(c, ednsH, m.key, m.edns, false, false, m.d)
+			post = append(post, memberCoq("after", m))
+		}
 		final, flen := vC13Dump(c.failure)
 		out = map[string]any{
-			"k": kk,
-			"coq": fmt.Sprintf("CaseCohort (%d) (%d) (%d) %v (%d) (%d) %s [%s] [%s] %d %s", rawSize, int64(rawInit), int64(rawMax), off, int64(init), int64(max), tab.coq(), strings.Join(pre, ";"), strings.Join(gs, ";"), inFlight, final),
+			"k":          kk,
+			"coq":        fmt.Sprintf("CaseCohort (%d) (%d) (%d) %v (%d) (%d) %s [%s] [%s] [%s] %d %s", rawSize, int64(rawInit), int64(rawMax), off, int64(init), int64(max), tab.coq(), strings.Join(pre, ";"), strings.Join(gs, ";"), strings.Join(post, ";"), inFlight, final),
 			"nontrivial": nf > 0 && (served > 0 || solo > 0),
 			"desc": map[string]any{"effective": init.String() + ".." + max.String(), "rfc9520_off": off, "requests": desc, "in_downstream_before_any_leader_returned": inFlight,
 				"followers": nf, "followers_served_from_failure_cache": served, "followers_sent_downstream": solo, "failure_len": flen},
@@ -1595,8 +1672,8 @@ func vC13PipeEpisode(t *testing.T, ep vC13PipeCorpusCase) map[string]any {
 	query(fail) // and is suppressed for the initial interval only
 	final, _ := vC13Dump(c.failure)
 	return map[string]any{
-		"k": "pipe-corpus-episode",
-		"coq": fmt.Sprintf("CasePipe (%d) (%d) (%d) %v %v (%d) (%d) %s [%s] %s", 0, int64(rawInit), int64(rawMax), false, true, int64(init), int64(max), tab.coq(), strings.Join(steps, ";"), final),
+		"k":          "pipe-corpus-episode",
+		"coq":        fmt.Sprintf("CasePipe (%d) (%d) (%d) %v %v (%d) (%d) %s [%s] %s", 0, int64(rawInit), int64(rawMax), false, true, int64(init), int64(max), tab.coq(), strings.Join(steps, ";"), final),
 		"nontrivial": cachedHits > 0 && downstreamCalls > 0,
 		"desc":       map[string]any{"episode": ep, "effective": init.String() + ".." + max.String(), "steps": desc, "cached_failure_answers": cachedHits, "downstream_calls": downstreamCalls},
 	}
@@ -1613,6 +1690,10 @@ type vC13CohortCorpusCase struct {
 	Followers int    `json:"followers"`
 	Leader    string `json:"leader"` // shared | local | useful
 	Zone      string `json:"zone"`
+	// optional: a second request, parked while the first one's outcome lands, that ends in a
+	// useful answer; and the questions asked once everything has returned
+	ThenUseful string   `json:"then_useful"`
+	After      []string `json:"after"`
 }
 
 func vC13CohortCorpus(t *testing.T) []map[string]any {
@@ -1668,7 +1749,16 @@ func vC13CohortCorpus(t *testing.T) []map[string]any {
 			}
 			gr.followers = append(gr.followers, &vC13Member{key: fk, edns: i%3 != 2, d: vC13Down{kind: 0, rcode: dns.RcodeServerFailure}})
 		}
-		out = append(out, vC13CohortRun(t, "cohort-corpus", cfg, 0, 0, 0, false, nil, []*vC13Group{gr}))
+		groups := []*vC13Group{gr}
+		if ep.ThenUseful != "" {
+			k2 := vC13QKey{name: vC13LabelsOf(ep.ThenUseful), qtype: ep.Qtype, qclass: dns.ClassINET, cd: ep.CD}
+			groups = append(groups, &vC13Group{leader: &vC13Member{key: k2, edns: true, d: vC13Down{kind: 1, rcode: dns.RcodeNameError}}})
+		}
+		var post []*vC13Member
+		for _, n := range ep.After {
+			post = append(post, &vC13Member{key: vC13QKey{name: vC13LabelsOf(n), qtype: ep.Qtype, qclass: dns.ClassINET, cd: ep.CD}, edns: true, d: vC13Down{kind: 0, rcode: dns.RcodeServerFailure}})
+		}
+		out = append(out, vC13CohortRun(t, "cohort-corpus", cfg, 0, 0, 0, false, nil, groups, post))
 	}
 	return out
 }
